@@ -88,26 +88,32 @@ var kctlAssume = []string{
 	"oracles are computed from raw API objects by /verif/sim/specalloc (own address parser on net/netip), never by MetalLB code, except 'fresh rebuild' in C11 which by definition uses a fresh allocator",
 }
 
+const modeARule = "  Mode A batch: seeded sequences of direct allocator API calls (Assign, Allocate, AllocateFromPool, AllocateFromPoolForAdditionalFamily, Unassign, SetPools through the real PoolReconciler) over generated services and pools under drawn map orders; every call is followed by the exclusivity / membership / counter / rebuild / release-probe checks."
+
 const kctlRule = "Each run draws swarm knobs (sizes, fault kinds, lag, interleaving, map and list orders), then a state-dependent history of service/pool/namespace operations scheduled against informer deliveries, worker steps, clock jumps, faults and restarts of the real controller."
 
 var props = []propDef{
-	{ID: "C01", Level: "exploration", Rule: kctlRule, Assumptions: kctlAssume, Components: kctlComponents,
-		Batches: []batch{{Engine: "kctl", Variant: "", Runs: 24000, RunsT: 400000, WallS: 150, WallST: 1500}}},
-	{ID: "C02", Level: "exploration", Rule: kctlRule, Assumptions: kctlAssume, Components: kctlComponents,
-		Batches: []batch{{Engine: "kctl", Variant: "", Runs: 24000, RunsT: 400000, WallS: 150, WallST: 1500}}},
+	{ID: "C01", Level: "exploration", Rule: kctlRule + modeARule, Assumptions: kctlAssume, Components: kctlComponents,
+		Batches: []batch{{Engine: "kctl", Variant: "", Runs: 96000, RunsT: 2000000, WallS: 150, WallST: 1500, Note: "mode B: the controller process"},
+			{Engine: "kctl", Variant: "modeA", Runs: 64000, RunsT: 1500000, WallS: 100, WallST: 900, Note: "mode A: the allocator API driven directly (explicit assign / allocate / release histories)"}}},
+	{ID: "C02", Level: "exploration", Rule: kctlRule + modeARule, Assumptions: kctlAssume, Components: kctlComponents,
+		Batches: []batch{{Engine: "kctl", Variant: "", Runs: 96000, RunsT: 2000000, WallS: 150, WallST: 1500, Note: "mode B: the controller process"},
+			{Engine: "kctl", Variant: "modeA", Runs: 64000, RunsT: 1500000, WallS: 100, WallST: 900, Note: "mode A: the allocator API driven directly (explicit assign / allocate / release histories)"}}},
 	{ID: "C03", Level: "exploration", Rule: kctlRule, Assumptions: kctlAssume, Components: kctlComponents,
-		Batches: []batch{{Engine: "kctl", Variant: "", Runs: 24000, RunsT: 400000, WallS: 150, WallST: 1500}}},
-	{ID: "C06", Level: "exploration", Rule: kctlRule, Assumptions: kctlAssume, Components: kctlComponents,
-		Batches: []batch{{Engine: "kctl", Variant: "faults=on", Runs: 24000, RunsT: 400000, WallS: 150, WallST: 1500}}},
+		Batches: []batch{{Engine: "kctl", Variant: "", Runs: 96000, RunsT: 2000000, WallS: 150, WallST: 1500}}},
+	{ID: "C06", Level: "fault_enumeration", Rule: kctlRule + "  Crash-point enumeration batch: for each sampled fault-free history (<= 25 operations) one run per crash opportunity it passes (every scheduler step boundary, before and after every status write), i.e. every single-crash point of that history under that schedule; the random batch adds multi-crash and write-failure sequences.", Assumptions: kctlAssume, Components: kctlComponents,
+		Batches: []batch{{Engine: "kctl", Variant: "crashat", Enum: true, Runs: 400, RunsT: 8000, WallS: 150, WallST: 1200, Note: "crash-point enumeration: every single crash point of each sampled history"},
+			{Engine: "kctl", Variant: "faults=on", Runs: 96000, RunsT: 2000000, WallS: 150, WallST: 1500, Note: "random multi-fault sequences"}}},
 	{ID: "C07", Level: "exploration", Rule: kctlRule, Assumptions: kctlAssume, Components: kctlComponents,
-		Batches: []batch{{Engine: "kctl", Variant: "", Runs: 24000, RunsT: 400000, WallS: 150, WallST: 1500}}},
-	{ID: "C11", Level: "exploration", Rule: kctlRule, Assumptions: kctlAssume, Components: kctlComponents,
-		Batches: []batch{{Engine: "kctl", Variant: "", Runs: 24000, RunsT: 400000, WallS: 150, WallST: 1500}}},
+		Batches: []batch{{Engine: "kctl", Variant: "", Runs: 96000, RunsT: 2000000, WallS: 150, WallST: 1500}}},
+	{ID: "C11", Level: "exploration", Rule: kctlRule + modeARule, Assumptions: kctlAssume, Components: kctlComponents,
+		Batches: []batch{{Engine: "kctl", Variant: "", Runs: 96000, RunsT: 2000000, WallS: 150, WallST: 1500, Note: "mode B: the controller process"},
+			{Engine: "kctl", Variant: "modeA", Runs: 64000, RunsT: 1500000, WallS: 100, WallST: 900, Note: "mode A: the allocator API driven directly (explicit assign / allocate / release histories)"}}},
 }
 
 func spkProp(id string) propDef {
 	return propDef{ID: id, Level: "exploration", Rule: kspkRule, Assumptions: kspkAssume, Components: kspkComponents,
-		Batches: []batch{{Engine: "kspk", Variant: "", Runs: 12000, RunsT: 200000, WallS: 170, WallST: 1500}}}
+		Batches: []batch{{Engine: "kspk", Variant: "", Runs: 36000, RunsT: 600000, WallS: 170, WallST: 1500}}}
 }
 
 var gnativeComponents = map[string]string{
@@ -198,19 +204,19 @@ const gconcRule = "Each run draws scripts for the worker tasks (service events i
 
 func init() {
 	props = append(props, propDef{ID: "C20", Level: "exploration", Rule: gconcRule, Assumptions: gconcAssume, Components: gconcComponents,
-		Batches: []batch{{Engine: "gconc", Variant: "", Runs: 4000, RunsT: 60000, WallS: 120, WallST: 900, Note: "controller process"},
-			{Engine: "gconcspk", Variant: "", Runs: 4000, RunsT: 60000, WallS: 120, WallST: 900, Note: "speaker process"}}})
+		Batches: []batch{{Engine: "gconc", Variant: "", Runs: 12000, RunsT: 400000, WallS: 120, WallST: 900, Note: "controller process"},
+			{Engine: "gconcspk", Variant: "", Runs: 12000, RunsT: 400000, WallS: 120, WallST: 900, Note: "speaker process"}}})
 	props = append(props, propDef{ID: "C13", Level: "exploration", Rule: gl2Rule, Assumptions: gl2Assume, Components: gl2Components,
-		Batches: []batch{{Engine: "gl2", Variant: "", Runs: 6000, RunsT: 100000, WallS: 170, WallST: 1500}}})
+		Batches: []batch{{Engine: "gl2", Variant: "", Runs: 60000, RunsT: 1500000, WallS: 170, WallST: 1500}}})
 	props = append(props, propDef{ID: "C19", Level: "exploration", Rule: gfrrRule + " " + gfrrk8sRule, Assumptions: gfrrAssume, Components: merge(gfrrComponents, gfrrk8sComponents),
-		Batches: []batch{{Engine: "gfrr", Variant: "", Runs: 5000, RunsT: 80000, WallS: 170, WallST: 1200},
-			{Engine: "gfrrk8s", Variant: "", Runs: 3000, RunsT: 50000, WallS: 100, WallST: 600, Note: "frr-k8s half: debouncer + reconciler delivery of the FRRConfiguration"}}})
+		Batches: []batch{{Engine: "gfrr", Variant: "", Runs: 20000, RunsT: 600000, WallS: 170, WallST: 1200},
+			{Engine: "gfrrk8s", Variant: "", Runs: 10000, RunsT: 300000, WallS: 100, WallST: 600, Note: "frr-k8s half: debouncer + reconciler delivery of the FRRConfiguration"}}})
 	props = append(props, propDef{ID: "C15", Level: "exploration", Rule: gfrrk8sRule, Assumptions: gfrrk8sAssume, Components: gfrrk8sComponents,
-		Batches: []batch{{Engine: "gfrrk8s", Variant: "", Runs: 5000, RunsT: 80000, WallS: 170, WallST: 1500}}})
+		Batches: []batch{{Engine: "gfrrk8s", Variant: "", Runs: 20000, RunsT: 1000000, WallS: 170, WallST: 1500}}})
 	props = append(props, propDef{ID: "C14", Level: "exploration", Rule: gfrrRule, Assumptions: gfrrAssume, Components: gfrrComponents,
-		Batches: []batch{{Engine: "gfrr", Variant: "", Runs: 5000, RunsT: 80000, WallS: 170, WallST: 1500}}})
+		Batches: []batch{{Engine: "gfrr", Variant: "", Runs: 20000, RunsT: 600000, WallS: 170, WallST: 1500}}})
 	for _, id := range []string{"C16", "C17"} {
-		bs := []batch{{Engine: "gnative", Variant: "", Runs: 6000, RunsT: 100000, WallS: 170, WallST: 1500}}
+		bs := []batch{{Engine: "gnative", Variant: "", Runs: 18000, RunsT: 500000, WallS: 170, WallST: 1500}}
 		if id == "C16" {
 			bs = append(bs, batch{Engine: "gnative", Variant: "openfuzz", Runs: 20000, RunsT: 300000, WallS: 100, WallST: 600, Note: "the OPEN reader as a stream consumer: generated and mutated OPEN messages, fragmented delivery, trailing KEEPALIVE"})
 		}
@@ -224,7 +230,7 @@ func init() {
 var expectedProbes = map[string][]string{}
 
 var selftestVariants = map[string][]string{
-	"kctl": {"", "faults=on"},
+	"kctl": {"", "faults=on", "crashat", "modeA"},
 	"kspk": {""},
 	"gnative": {"", "openfuzz"},
 	"gfrr": {""},
